@@ -114,7 +114,7 @@ def create_nxgraph(net, include_pipes=True, respect_status_pipes=True,
     branch_params = {k: v for k, v in kwargs.items() if any(k.startswith(par) for par in branch_kw)}
     loc = locals()
     branch_params.update({"%s_%s" % (par, bc): loc.get("%s_%s" % (par, bc)) for par in branch_kw
-                          for bc in ["pipes", "valves", "pumps", "press_controls",
+                          for bc in ["pipes", "valves", "compressors", "pumps", "press_controls",
                                      "mass_circ_pumps", "pressure_circ_pumps", "valve_pipes",
                                      "flow_controls", "heat_consumers"]})
     switch_components = {"pipes": "pi"}
@@ -135,9 +135,8 @@ def create_nxgraph(net, include_pipes=True, respect_status_pipes=True,
         add_branch_component(comp, mg, net, table_name, include_comp, respect_status, weight_getter, valve_et_filter)
 
     # add all junctions that were not added when creating branches
-    if len(mg.nodes()) < len(net.junction.index):
-        for b in set(net.junction.index) - set(mg.nodes()):
-            mg.add_node(b)
+    for b in set(net.junction.index) - set(mg.nodes()):
+        mg.add_node(b)
 
     # remove nogojunctions
     if nogojunctions is not None:
@@ -167,11 +166,15 @@ def add_branch_component(comp, mg, net, table_name, include_comp, respect_status
     if tab is not None:
         in_service_name = comp.active_identifier()
         from_col, to_col = comp.from_to_node_cols()
+        if table_name == "valve" and "et" in tab.columns:
+            # valves between a junction and a pipe are no edges of their own (their "element" is a
+            # pipe index, not a junction); if closed, they take the edge of their pipe out of service
+            tab = tab[tab["et"].values != "pi"]
         indices, parameter, in_service = init_par(tab, respect_status, in_service_name)
         indices[:, F_JUNCTION] = tab[from_col].values
         indices[:, T_JUNCTION] = tab[to_col].values
 
-        if valve_et_filter is not None:
+        if valve_et_filter is not None and "valve" in net and len(net["valve"]):
             mask = (net.valve.et.values == valve_et_filter) & ~net.valve.opened.values.astype(bool)
             if mask.any():
                 open_pipes = net.valve.element.values[mask]
